@@ -25,7 +25,8 @@ RULE = ('signatures: every Signature.create/sign result over keys {1, 2, n-2, n-
         'signatures made inside Transaction.sign; verifier triples: reference-signed (r,s) in forms '
         '{object, raw, raw hex, DER, DER hex} x public-key forms x classes {valid, high-S twin, r/s in {0,n,n+1,+n,negated}, '
         'swapped, wrong key, digest+-1, digest+n, off-curve / garbage public key, malformed DER, lax DER, short '
-        'DER, wrong raw length}; verifier sequences: 2-5 calls on ONE Signature object (built from r,s / parsed raw / parsed DER / '
+        'DER, wrong raw length, bytes behind the hash-type byte, bytes between DER and hash-type byte} x entry points {verify(), '
+        'Signature.parse / parse_bytes / parse_hex, parse with key, Stack.op_checksig}; verifier sequences: 2-5 calls on ONE Signature object (built from r,s / parsed raw / parsed DER / '
         'parsed with key / created by the library) mixing valid, digest+-1, other digest, wrong and neighbouring key in '
         'valid-first, invalid-first and random order, through the method and the module function, with omitted arguments; non-trivial = distinct (key class, digest class, nonce mode, hash-type bucket, '
         'form) resp. (triple class, signature form, public-key form, api)')
@@ -400,7 +401,9 @@ def chk_hexcase(case, col):
 
 # ------------------------------------------------------------------ verifier differential
 def _lax_der(b):
-    """Permissive TLV walk: SEQUENCE { INTEGER r, INTEGER s, ...ignored } -> (r, s) unsigned, or None."""
+    """Permissive TLV walk: SEQUENCE { INTEGER r, INTEGER s, ...ignored } -> (r, s) unsigned, or None. Laxness is tolerated
+    only INSIDE the sequence (padding, long-form lengths, extra elements); the sequence itself must span the whole input -
+    bytes behind it are not part of any encoding of (r, s) and make the input undecodable."""
     try:
         if len(b) < 6 or b[0] != 0x30:
             return None
@@ -415,7 +418,7 @@ def _lax_der(b):
                 raise ValueError
             return int.from_bytes(b[p + 1:p + 1 + nb], 'big'), p + 1 + nb
         ln, p = rdlen(p)
-        if p + ln > len(b):
+        if p + ln != len(b):
             return None
         out = []
         for _ in range(2):
@@ -485,6 +488,15 @@ def _lib_verdict(case):
                 res = K.verify(txid, data, pub)
             elif api == 'parse.verify':
                 res = K.Signature.parse(data).verify(txid, pub)
+            elif api == 'parse_bytes.verify':
+                res = K.Signature.parse_bytes(bytes.fromhex(sp['bytes']), pub).verify(txid)
+            elif api == 'parse_hex.verify':
+                res = K.Signature.parse_hex(sp['bytes']).verify(txid, pub)
+            elif api == 'op_checksig':      # the script interpreter's path: stack [signature, public key], message = digest
+                from bitcoinlib.scripts import Stack
+                st = Stack([bytes.fromhex(sp['bytes']), bytes.fromhex(case['pub']['hex'])])
+                st.op_checksig(bytes.fromhex(z))
+                res = True if (len(st) == 1 and st[-1] == b'\x01') else (False if (len(st) == 1 and st[-1] == b'') else list(st))
             else:   # parse with the key attached, verify with the digest only
                 res = K.Signature.parse(data, public_key=pub).verify(txid)
     except Exception as e:
@@ -564,7 +576,7 @@ def chk_triple(case, col):
 
 SIG_FORMS = ('obj', 'raw', 'rawhex', 'der', 'derhex')
 PUB_FORMS = ('Key', 'HDKey', 'bytes', 'bytes-unc', 'hex')
-APIS = ('verify', 'parse.verify', 'parse+key.verify')
+APIS = ('verify', 'parse.verify', 'parse+key.verify', 'parse_bytes.verify', 'parse_hex.verify', 'op_checksig')
 
 
 def _sigspec(form, r, s, ht=1):
@@ -613,6 +625,19 @@ def _der_mutants(rnd, r, s):
     ]
     if r >> (8 * ((r.bit_length() + 7) // 8) - 1) & 1:
         out.append(('der-lax-negative-r', b'\x30' + bytes([len(ienc(r, 0, True)) + len(ienc(s))]) + ienc(r, 0, True) + ienc(s)))
+    return out
+
+
+def _hashtype_mutants(rnd, r, s):
+    """(class, full signature bytes): a valid DER part and a hash-type byte that is not the last byte, or not directly behind
+    the sequence. Neither is an encoding of (r, s) || hashtype."""
+    good = R.der_encode(r, s)
+    out = []
+    for nb in (1, 2, 8, 33):
+        ht = rnd.choice([1, 1, 2, 3, 0x81, 0x83])
+        out.append(('sig-bytes-after-hashtype-%d' % nb, good + bytes([ht]) + rnd.choice([rnd.randbytes(nb), bytes([ht]) * nb, bytes(nb)])))
+    for nb in (1, 2, 8):
+        out.append(('sig-bytes-between-der-and-hashtype-%d' % nb, good + rnd.choice([rnd.randbytes(nb), b'\x01' * nb, bytes(nb)]) + b'\x01'))
     return out
 
 
@@ -677,6 +702,14 @@ def gen_triples(rnd, n, col_unused=None):
                    'sig': {'form': rnd.choice(['der', 'derhex']), 'bytes': (body + b'\x01').hex()},
                    'pub': _pubspec(rnd.choice(['Key', 'bytes']), d), 'api': rnd.choice(APIS)}
             made += 1
+        # hash-type byte not in last place, through every entry point that takes a signature with hash type
+        for cls, full in _hashtype_mutants(rnd, r, lo):
+            for api in rnd.sample(APIS, 3):
+                yield {'kind': 'verify', 'cls': cls, 'z': zh, 'z_form': 'bytes',
+                       'sig': {'form': 'derhex' if api == 'parse_hex.verify' else rnd.choice(['der', 'derhex'] if api in ('verify', 'parse.verify', 'parse+key.verify') else ['der']),
+                               'bytes': full.hex()},
+                       'pub': _pubspec(rnd.choice(['Key', 'bytes']), d), 'api': api}
+                made += 1
         for cls, rawlen in (('raw-63', 63), ('raw-65', 65), ('raw-0', 0), ('raw-32', 32)):
             rb = (r.to_bytes(32, 'big') + lo.to_bytes(32, 'big') + b'\x01')[:rawlen]
             yield {'kind': 'verify', 'cls': cls, 'z': zh, 'z_form': 'bytes', 'sig': {'form': 'raw', 'bytes': rb.hex()},
